@@ -78,7 +78,9 @@ def bump (c : List (String × String × Nat)) (k n : String) : List (String × S
   | (k', n', v) :: rest => if k' = k ∧ n' = n then (k', n', v + 1) :: rest else (k', n', v) :: bump rest k n
 
 /-- calls that take the caller's context (store, resource plugin, engine); WAL writes do not -/
-def sensitive (k : String) : Bool := k.startsWith "store" || k.startsWith "plugin" || k.startsWith "engine"
+def sensitive (k : String) : Bool :=
+  k.toList.take 5 == ['s', 't', 'o', 'r', 'e'] || k.toList.take 6 == ['p', 'l', 'u', 'g', 'i', 'n'] ||
+  k.toList.take 6 == ['e', 'n', 'g', 'i', 'n', 'e']
 
 /-- is the next step of kind `k` on node `n` the one the cancellation plan addresses (before / after)? -/
 def cancelHere (ms : MS R) (k n : String) (after : Bool) : Bool :=
